@@ -1,7 +1,466 @@
 package main
 
-import "verif/harness/vh"
+import (
+	"encoding/binary"
+	"errors"
+	"fmt"
+	"strconv"
+	"strings"
 
-func genKVCases(r *vh.Rand, tier string, n int) []string { return nil }
+	"github.com/lni/dragonboat/v4/raftio"
+	pb "github.com/lni/dragonboat/v4/raftpb"
+	hooks "github.com/lni/dragonboat/v4/verifhooks/c10"
+	"verif/harness/vh"
+)
 
-func runKVLine(line string, obs *vh.LineWriter, st *vh.Stats) {}
+// White-box cases: `<id> kv <plain|batched> <failAt|all> <err|cb|ca|none|x> | op ; op ; ...`
+//
+// The real sharded LogDB (one shard) runs over faultKV. Mutating operations
+// inside the contract (ref.wf) are executed until one does not return success
+// (error, panic, crash); then the store is "recovered": a new LogDB instance is
+// opened over the same durable map with the fault switched off, and hard
+// state, snapshot record and the whole log of every replica are read back.
+// failAt = all: the case is run once fault-free (the KV call trace of every
+// operation is printed) and once for every KV call index and every fault kind.
+
+func mkCmd(tag uint64, n uint64) []byte {
+	b := make([]byte, n)
+	binary.BigEndian.PutUint64(b, tag)
+	for i := 8; i < len(b); i++ {
+		b[i] = byte(tag) + byte(i)
+	}
+	return b
+}
+
+func mkEntry(e ent) pb.Entry {
+	return pb.Entry{Index: e.Index, Term: e.Term, Key: e.Tag, Cmd: mkCmd(e.Tag, e.Len)}
+}
+
+func mkSnapshot(n int, ss snap) pb.Snapshot {
+	return pb.Snapshot{Index: ss.Index, Term: ss.Term, FileSize: ss.Tag, ShardID: nodeIDs[n].Shard,
+		Type: pb.RegularStateMachine, Filepath: fmt.Sprintf("snapshot-%d-%d", ss.Index, ss.Tag)}
+}
+
+func mkUpdate(u update) pb.Update {
+	id := nodeIDs[u.N]
+	r := pb.Update{ShardID: id.Shard, ReplicaID: id.Replica,
+		State: pb.State{Term: u.St.Term, Vote: u.St.Vote, Commit: u.St.Commit}}
+	if u.Ss.Index > 0 {
+		r.Snapshot = mkSnapshot(u.N, u.Ss)
+	}
+	for _, e := range u.Ents {
+		r.EntriesToSave = append(r.EntriesToSave, mkEntry(e))
+	}
+	return r
+}
+
+func readEnt(e pb.Entry) (ent, bool) {
+	r := ent{Index: e.Index, Term: e.Term, Len: uint64(len(e.Cmd))}
+	if len(e.Cmd) < 8 {
+		return r, false
+	}
+	r.Tag = binary.BigEndian.Uint64(e.Cmd)
+	want := mkCmd(r.Tag, r.Len)
+	ok := e.Key == r.Tag
+	for i := range want {
+		if want[i] != e.Cmd[i] {
+			ok = false
+			break
+		}
+	}
+	return r, ok
+}
+
+// kvStore is the real LogDB over a faultKV.
+type kvStore struct {
+	batched bool
+	kv      *faultKV
+	db      raftio.ILogDB
+}
+
+func (s *kvStore) open() error {
+	var err error
+	s.db, err = hooks.OpenLogDBOverKV(s.kv, s.batched)
+	return err
+}
+
+func (s *kvStore) close() {
+	if s.db != nil {
+		_ = vh.Catch(func() { _ = s.db.Close() })
+		s.db = nil
+	}
+}
+
+func (s *kvStore) reopen() error {
+	s.close()
+	return s.open()
+}
+
+// exec runs one mutating operation: ok | err | panic | crash
+func (s *kvStore) exec(o op) (res string, detail string) {
+	var err error
+	crashed := false
+	p := ""
+	func() {
+		defer func() {
+			if r := recover(); r != nil {
+				if _, ok := r.(crashSignal); ok {
+					crashed = true
+				} else {
+					p = fmt.Sprint(r)
+				}
+			}
+		}()
+		switch o.Kind {
+		case "SAVE":
+			var uds []pb.Update
+			for _, u := range o.Ups {
+				uds = append(uds, mkUpdate(u))
+			}
+			err = s.db.SaveRaftState(uds, nodeIDs[o.Ups[0].N].Shard%16+1)
+		case "SNAP":
+			id := nodeIDs[o.N]
+			err = s.db.SaveSnapshots([]pb.Update{{ShardID: id.Shard, ReplicaID: id.Replica, Snapshot: mkSnapshot(o.N, o.Ss)}})
+		case "REMTO":
+			id := nodeIDs[o.N]
+			err = s.db.RemoveEntriesTo(id.Shard, id.Replica, o.A)
+		case "REMNODE":
+			id := nodeIDs[o.N]
+			err = s.db.RemoveNodeData(id.Shard, id.Replica)
+		case "IMPORT":
+			if err = s.reopen(); err != nil {
+				return
+			}
+			id := nodeIDs[o.N]
+			if err = s.db.ImportSnapshot(mkSnapshot(o.N, o.Ss), id.Replica); err != nil {
+				return
+			}
+			err = s.reopen()
+		case "REOPEN":
+			err = s.reopen()
+		}
+	}()
+	switch {
+	case crashed:
+		return "crash", ""
+	case p != "":
+		return "panic", p
+	case err != nil:
+		return "err", err.Error()
+	}
+	return "ok", ""
+}
+
+// readback: raw and canonical answers (see c09): GS, RRS(arg), Q(arg+1, 2^62, 2^62)
+func (s *kvStore) gs(n int) string {
+	id := nodeIDs[n]
+	var ss pb.Snapshot
+	var err error
+	if p := vh.Catch(func() { ss, err = s.db.GetSnapshot(id.Shard, id.Replica) }); p != "" {
+		return "panic"
+	}
+	if err != nil {
+		return "err"
+	}
+	if pb.IsEmptySnapshot(ss) {
+		return "none"
+	}
+	r := fmt.Sprintf("%d %d %d", ss.Index, ss.Term, ss.FileSize)
+	if ss.Filepath != fmt.Sprintf("snapshot-%d-%d", ss.Index, ss.FileSize) || ss.ShardID != id.Shard {
+		r += " corrupt-record"
+	}
+	return r
+}
+
+func (s *kvStore) rrs(n int, arg uint64) (raw string, canon string) {
+	id := nodeIDs[n]
+	var rs raftio.RaftState
+	var err error
+	if p := vh.Catch(func() { rs, err = s.db.ReadRaftState(id.Shard, id.Replica, arg) }); p != "" {
+		return "panic", "panic"
+	}
+	if errors.Is(err, raftio.ErrNoSavedLog) {
+		return "nostate", "nostate"
+	}
+	if err != nil {
+		return "err", "err"
+	}
+	st := fmt.Sprintf("st=%d,%d,%d", rs.State.Term, rs.State.Vote, rs.State.Commit)
+	raw = fmt.Sprintf("%s first=%d count=%d", st, rs.FirstIndex, rs.EntryCount)
+	first, count := rs.FirstIndex, rs.EntryCount
+	if count > 0 && first < arg+1 {
+		cut := arg + 1 - first
+		if cut >= count {
+			count = 0
+		} else {
+			first, count = arg+1, count-cut
+		}
+	}
+	if count == 0 {
+		return raw, st + " count=0"
+	}
+	return raw, fmt.Sprintf("%s first=%d count=%d", st, first, count)
+}
+
+func (s *kvStore) q(n int, low uint64) string {
+	id := nodeIDs[n]
+	var es []pb.Entry
+	var size uint64
+	var err error
+	if p := vh.Catch(func() {
+		es, size, err = s.db.IterateEntries(nil, 0, id.Shard, id.Replica, low, 1<<62, 1<<62)
+	}); p != "" {
+		return "panic"
+	}
+	if err != nil {
+		return "err"
+	}
+	var out []ent
+	bad := ""
+	for _, e := range es {
+		r, ok := readEnt(e)
+		if !ok {
+			bad = " corrupt-payload"
+		}
+		out = append(out, r)
+	}
+	return fmt.Sprintf("%s %d%s", showEnts(out), size, bad)
+}
+
+// refAnswers: what a correct store answers about node n in reference state r
+func refAnswers(r *ref, n int) (gs string, rrs string, q string) {
+	m := r.nodes[n].marker
+	return r.query(op{Kind: "GS", N: n}), r.query(op{Kind: "RRS", N: n, A: m}),
+		r.query(op{Kind: "Q", N: n, A: m + 1, B: 1 << 62, C: 1 << 62})
+}
+
+func cloneRef(r *ref) *ref {
+	c := &ref{nonCmd: r.nonCmd}
+	for i := range r.nodes {
+		n := r.nodes[i]
+		c.nodes[i] = rnode{marker: n.marker, mterm: n.mterm, ents: append([]ent{}, n.ents...)}
+		if n.st != nil {
+			st := *n.st
+			c.nodes[i].st = &st
+		}
+		if n.ss != nil {
+			ss := *n.ss
+			c.nodes[i].ss = &ss
+		}
+	}
+	return c
+}
+
+type kvPassResult struct {
+	calls     int
+	fired     bool
+	firedKind string // kind of the operation during which the fault fired
+	violation string
+}
+
+// kvPass: one run of the operations with the specified fault.
+func kvPass(id string, tag string, batched bool, failAt int, mode string, withCalls bool,
+	ops []op, nonCmd uint64, obs *vh.LineWriter) kvPassResult {
+	res := kvPassResult{}
+	fk := &faultKV{inner: newMemKV(), failAt: failAt, mode: mode, enabled: true}
+	s := &kvStore{batched: batched, kv: fk}
+	if err := s.open(); err != nil {
+		obs.Printf("%s %sopenfail\n", id, tag)
+		res.violation = "cannot open the LogDB over the KV store: " + err.Error()
+		return res
+	}
+	r := &ref{nonCmd: nonCmd}
+	var inflight *op
+	for k := range ops {
+		o := ops[k]
+		if o.bad {
+			obs.Printf("%s %s%d ? bad\n", id, tag, k)
+			continue
+		}
+		if o.Kind == "Q" || o.Kind == "RRS" || o.Kind == "GS" {
+			continue
+		}
+		if !r.wf(o) {
+			obs.Printf("%s %s%d %s nonwf\n", id, tag, k, o.Kind)
+			continue
+		}
+		before := len(fk.trace)
+		firedBefore := fk.fired
+		out, detail := s.exec(o)
+		if withCalls {
+			calls := "-"
+			if len(fk.trace) > before {
+				calls = strings.Join(fk.trace[before:], " ")
+			}
+			obs.Printf("%s %s%d %s %s | %s\n", id, tag, k, o.Kind, out, calls)
+		} else {
+			obs.Printf("%s %s%d %s %s\n", id, tag, k, o.Kind, out)
+		}
+		if fk.fired && !firedBefore {
+			res.fired = true
+			res.firedKind = o.Kind
+			// MONITOR: the storage layer reported an error during this operation
+			if mode == "err" && out == "ok" && res.violation == "" {
+				res.violation = fmt.Sprintf("failed-write-reported-as-success: store=%s op#%d %s returned success although KV call #%d (%s) failed",
+					kindName(batched), k, o.String(), failAt, fk.trace[failAt])
+			}
+		}
+		if out == "ok" {
+			r.apply(o)
+			continue
+		}
+		if !fk.fired && res.violation == "" {
+			res.violation = fmt.Sprintf("operation failed without a fault: store=%s op#%d %s: %s %s", kindName(batched), k, o.String(), out, detail)
+		}
+		inflight = &ops[k]
+		break
+	}
+	res.calls = fk.calls
+	// recovery: a new instance over the durable map, no faults
+	s.close()
+	fk.enabled = false
+	ra := r
+	rb := r
+	if inflight != nil {
+		rb = cloneRef(r)
+		rb.apply(*inflight)
+	}
+	if err := s.open(); err != nil {
+		obs.Printf("%s %sR openfail\n", id, tag)
+		if res.violation == "" {
+			res.violation = "cannot reopen after the fault: " + err.Error()
+		}
+		return res
+	}
+	defer s.close()
+	for n := 0; n < numNodes; n++ {
+		gs := s.gs(n)
+		obs.Printf("%s %sR %d GS %s\n", id, tag, n, gs)
+		markers := []uint64{ra.nodes[n].marker}
+		if rb.nodes[n].marker != markers[0] {
+			markers = append(markers, rb.nodes[n].marker)
+		}
+		canonRRS := map[uint64]string{}
+		qs := map[uint64]string{}
+		for _, m := range markers {
+			raw, canon := s.rrs(n, m)
+			canonRRS[m] = canon
+			obs.Printf("%s %sR %d RRS %d %s\n", id, tag, n, m, raw)
+			qs[m] = s.q(n, m+1)
+			obs.Printf("%s %sR %d Q %d %s\n", id, tag, n, m, qs[m])
+		}
+		// MONITOR: per replica the recovered store shows the acknowledged state or the
+		// acknowledged state plus the complete operation in flight
+		match := func(rr *ref) bool {
+			wgs, wrrs, wq := refAnswers(rr, n)
+			m := rr.nodes[n].marker
+			return gs == wgs && canonRRS[m] == wrrs && qs[m] == wq
+		}
+		if !match(ra) && !match(rb) && res.violation == "" {
+			wgs, wrrs, wq := refAnswers(ra, n)
+			m := ra.nodes[n].marker
+			what := "acknowledged-save-lost-or-torn"
+			if inflight != nil {
+				what = "recovered-state-is-neither-acked-nor-acked-plus-inflight"
+			}
+			res.violation = fmt.Sprintf("%s: store=%s fault=%s@%d node %d: recovered {GS %s | RRS %s | Q %s}, acknowledged state is {GS %s | RRS %s | Q %s}",
+				what, kindName(batched), mode, failAt, n, gs, canonRRS[m], qs[m], wgs, wrrs, wq)
+		}
+	}
+	return res
+}
+
+func kindName(batched bool) string {
+	if batched {
+		return "batched"
+	}
+	return "plain"
+}
+
+func runKVLine(line string, obs *vh.LineWriter, st *vh.Stats) {
+	head, body, _ := strings.Cut(line, " | ")
+	hf := strings.Fields(head)
+	id := hf[0]
+	if len(hf) != 5 || (hf[2] != "plain" && hf[2] != "batched") {
+		obs.Printf("%s badcase\n", id)
+		return
+	}
+	batched := hf[2] == "batched"
+	var ops []op
+	for _, t := range strings.Split(body, " ; ") {
+		if strings.TrimSpace(t) != "" {
+			ops = append(ops, parseOp(t))
+		}
+	}
+	nonCmd := uint64((&pb.Entry{}).SizeUpperLimit())
+	key := line[len(id):]
+	st.Count("kv.store." + hf[2])
+	report := func(r kvPassResult, mode string) {
+		if r.violation != "" {
+			st.Violation(id, r.violation)
+		}
+		if r.fired {
+			st.Count("kv.fault-fired." + mode)
+			st.Count("kv.fault-in." + r.firedKind)
+		}
+	}
+	if hf[3] == "all" {
+		r0 := kvPass(id, "", batched, -1, "", true, ops, nonCmd, obs)
+		report(r0, "none")
+		fired := false
+		for i := 0; i < r0.calls; i++ {
+			for _, m := range []string{"err", "cb", "ca"} {
+				r := kvPass(id, fmt.Sprintf("F%d%s.", i, m), batched, i, m, false, ops, nonCmd, obs)
+				report(r, m)
+				fired = fired || r.fired
+				st.Count("kv.fault-runs")
+			}
+		}
+		st.Case(key, fired, line)
+		return
+	}
+	if hf[4] == "none" {
+		r := kvPass(id, "", batched, -1, "", true, ops, nonCmd, obs)
+		report(r, "none")
+		st.Case(key, false, line)
+		return
+	}
+	at, err := strconv.Atoi(hf[3])
+	if err != nil || at < 0 || (hf[4] != "err" && hf[4] != "cb" && hf[4] != "ca") {
+		obs.Printf("%s badcase\n", id)
+		return
+	}
+	r := kvPass(id, "", batched, at, hf[4], true, ops, nonCmd, obs)
+	report(r, hf[4])
+	st.Count("kv.fault-runs")
+	st.Case(key, r.fired, line)
+}
+
+func opsText(ops []op) string {
+	var s []string
+	for _, o := range ops {
+		s = append(s, o.String())
+	}
+	return strings.Join(s, " ; ")
+}
+
+func genKVCases(r *vh.Rand, tier string, n int) []string {
+	nw := 14
+	if tier == "thorough" {
+		nw = 400
+	}
+	if n > 0 {
+		nw = n
+	}
+	nonCmd := uint64((&pb.Entry{}).SizeUpperLimit())
+	var out []string
+	for i := 0; i < nw; i++ {
+		target := 4 + r.Intn(6)
+		ops := genWorkload(r, target, true, hooks.BatchSize(), nonCmd)
+		body := opsText(ops)
+		for _, kind := range []string{"plain", "batched"} {
+			out = append(out, fmt.Sprintf("k%d.%s kv %s all x | %s", i, kind, kind, body))
+		}
+	}
+	return out
+}
